@@ -43,6 +43,11 @@ ATOL, RTOL = 1e-5, 1e-7
 START = datetime(2020, 3, 1, 8)
 
 
+class Skip(Exception):
+    """The oracle declines to judge this invocation (near-tie of keys, margin within the guard
+    band, value on a float boundary)."""
+
+
 def tol(L):
     return max(ATOL, RTOL * L)
 
@@ -107,23 +112,23 @@ def oracle_inputs(spec, evs):
     return ids, ph, A, L, info
 
 
-def priority(info, sort, rec):
+def priority(info, sort, rec, now=0):
     key = {
         "fcfs": lambda e: e["arr"],
         "lcfs": lambda e: -e["arr"],
         "edf": lambda e: e["est"],
-        "llf": lambda e: (e["est"] - 0) - e["amp"] / e["mx"],
+        "llf": lambda e: (e["est"] - now) - e["amp"] / e["mx"],
         "lrpt": lambda e: -e["amp"] / e["mx"],
     }[sort]
     active = [e for e in info if e["rem"] > 1e-3]
     ks = sorted(key(e) for e in active)
     if any(b - a < 1e-6 for a, b in zip(ks, ks[1:])):
         rec.count("discarded_key_tie")
-        hypothesis.assume(False)
+        raise Skip("key tie")
     for e in info:
         if abs(e["rem"] - 1e-3) < 1e-6:
             rec.count("discarded_activity_threshold")
-            hypothesis.assume(False)
+            raise Skip("activity threshold")
     return sorted(active, key=key)
 
 
@@ -134,9 +139,20 @@ def prop_greedy(spec, rec):
     ids, ph, A, L, info = oracle_inputs(spec, evs)
     require(sorted(out) == sorted(ids), "every_station_in_schedule", lambda: "keys %r" % sorted(out))
     r_out = [float(out[s][0]) for s in ids]
-    order = priority(info, spec["sort"], rec)
-    r = [0.0] * len(ids)
     labels = {"sort_" + spec["sort"], "greedy"}
+    try:
+        nt = judge_greedy(spec, ids, ph, A, L, info, r_out, rec, labels)
+    except Skip as e:
+        if str(e) == "ambiguous":
+            rec.case(spec, labels | {"ambiguous"}, False)
+            return
+        hypothesis.assume(False)
+    rec.case(spec, labels, nt)
+
+
+def judge_greedy(spec, ids, ph, A, L, info, r_out, rec, labels, now=0):
+    order = priority(info, spec["sort"], rec, now)
+    r = [0.0] * len(ids)
     binding_not_last = False
     served = set()
     for pos, e in enumerate(order):
@@ -145,7 +161,7 @@ def prop_greedy(spec, rec):
         thr = e["mn"] * e["V"] / (60.0 / spec["period"]) / 1000.0
         if abs(e["rem"] - thr) < 1e-9:
             rec.count("discarded_finish_threshold")
-            hypothesis.assume(False)
+            raise Skip("finish threshold")
         if not e["rem"] > thr:
             require(r_out[i] == 0, "finished_session_gets_zero", lambda: "session %s (remaining below one minimum-pilot period) got %r" % (e["sid"], r_out[i]))
             labels.add("session_below_min_pilot_period")
@@ -156,6 +172,8 @@ def prop_greedy(spec, rec):
             levels = sorted({0.0} | {float(x) for x in s["rates"]})
             best, amb = 0.0, False
             for a in levels:
+                if abs(a - ub) < 1e-9 and ub != e["mx"]:
+                    amb = True
                 if a <= ub:
                     r2 = list(r)
                     r2[i] = a
@@ -166,17 +184,15 @@ def prop_greedy(spec, rec):
                         best = max(best, a)
             if amb:
                 rec.count("ambiguous")
-                labels.add("ambiguous")
-                rec.case(spec, labels, False)
-                return
-            require(abs(r_out[i] - best) < 1e-9, "greedy_finite_not_largest_feasible_level", lambda: "priority %d session %s (station %s): granted %r, largest feasible level <= %r given earlier grants %r is %r" % (pos, e["sid"], ids[i], r_out[i], ub, r, best))
+                raise Skip("ambiguous")
+            require(abs(r_out[i] - best) < 1e-9, "greedy_finite_not_largest_feasible_level", lambda: "period %r priority %d session %s (station %s): granted %r, largest feasible level <= %r given earlier grants %r is %r" % (now, pos, e["sid"], ids[i], r_out[i], ub, r, best))
             if best < max([a for a in levels if a <= ub], default=0.0):
                 labels.add("constraint_binds")
                 if pos < len(order) - 1:
                     binding_not_last = True
         else:
             star = min(ub, rmax_cont(A, L, ph, r, i, ub))
-            require(star - 0.01 - 1e-6 <= r_out[i] <= star + 1e-6, "greedy_continuous_not_max_feasible", lambda: "priority %d session %s (station %s): granted %r, maximum feasible %r (own bound %r) given earlier grants %r" % (pos, e["sid"], ids[i], r_out[i], star, ub, r))
+            require(star - 0.01 - 1e-6 <= r_out[i] <= star + 1e-6, "greedy_continuous_not_max_feasible", lambda: "period %r priority %d session %s (station %s): granted %r, maximum feasible %r (own bound %r) given earlier grants %r" % (now, pos, e["sid"], ids[i], r_out[i], star, ub, r))
             if star < ub - 1e-9:
                 labels.add("constraint_binds")
                 if pos < len(order) - 1:
@@ -187,7 +203,7 @@ def prop_greedy(spec, rec):
             require(r_out[i] == 0, "station_without_active_session_gets_zero", lambda: "station %s got %r" % (sid, r_out[i]))
     if sum(1 for j in range(len(L)) if abs(L[j] + tol(L[j]) - abs(sum(A[j][i] * r_out[i] * cmath.exp(1j * math.radians(ph[i])) for i in range(len(ids))))) < 0.05) >= 2:
         labels.add("several_constraints_bind")
-    rec.case(spec, labels, binding_not_last)
+    return binding_not_last
 
 
 def rr_levels(s, ub, inc):
@@ -208,13 +224,25 @@ def prop_rr(spec, rec):
     require(sorted(out) == sorted(ids), "every_station_in_schedule", lambda: "keys %r" % sorted(out))
     r_out = [float(out[s][0]) for s in ids]
     labels = {"sort_" + spec["sort"], "rr", "inc_%s" % inc}
+    try:
+        blocked = judge_rr(spec, net, ids, ph, A, L, info, r_out, rec, labels)
+    except Skip as e:
+        if str(e) == "ambiguous":
+            rec.case(spec, labels | {"ambiguous"}, False)
+            return
+        hypothesis.assume(False)
+    rec.case(spec, labels, blocked)
+
+
+def judge_rr(spec, net, ids, ph, A, L, info, r_out, rec, labels, now=0):
+    inc = spec["inc"]
     order, levels = [], {}
-    for e in priority(info, spec["sort"], rec):
+    for e in priority(info, spec["sort"], rec, now):
         i = e["i"]
         thr = e["mn"] * e["V"] / (60.0 / spec["period"]) / 1000.0
         if abs(e["rem"] - thr) < 1e-9:
             rec.count("discarded_finish_threshold")
-            hypothesis.assume(False)
+            raise Skip("finish threshold")
         if not e["rem"] > thr:
             require(r_out[i] == 0, "finished_session_gets_zero", lambda: "session %s got %r" % (e["sid"], r_out[i]))
             continue
@@ -224,14 +252,14 @@ def prop_rr(spec, rec):
         allv = rr_levels(spec["stations"][i], float("inf"), inc)
         if ub != e["mx"] and any(abs(a - ub) < 1e-9 for a in allv):
             rec.count("discarded_level_on_bound")
-            hypothesis.assume(False)
+            raise Skip("level on bound")
         order.append(i)
         levels[i] = lv or [0.0]
     fin = {}
     for i in order:
         lv = levels[i]
         idx = min(range(len(lv)), key=lambda k: abs(lv[k] - r_out[i]))
-        require(abs(lv[idx] - r_out[i]) < 1e-6, "rr_output_not_an_allowed_level", lambda: "station %s got %r, levels within its bound %r" % (ids[i], r_out[i], lv[:40]))
+        require(abs(lv[idx] - r_out[i]) < 1e-6, "rr_output_not_an_allowed_level", lambda: "period %r: station %s got %r, levels within its bound %r" % (now, ids[i], r_out[i], lv[:40]))
         fin[i] = idx
     for i, sid in enumerate(ids):
         if i not in order:
@@ -255,17 +283,16 @@ def prop_rr(spec, rec):
             m = margin(A, L, ph, state)
             if abs(m) < 1e-9:
                 rec.count("ambiguous")
-                rec.case(spec, labels | {"ambiguous"}, False)
-                return
+                raise Skip("ambiguous")
             if fin[i] >= k:
-                require(m >= 0, "rr_raise_was_infeasible", lambda: "round %d: raising station %s to %r in state %r violates a constraint by %r" % (k, ids[i], levels[i][k], state, -m))
+                require(m >= 0, "rr_raise_was_infeasible", lambda: "period %r round %d: raising station %s to %r in state %r violates a constraint by %r" % (now, k, ids[i], levels[i][k], state, -m))
                 require(bool(net.is_feasible(_col(state))), "rr_raise_was_infeasible_for_network", "network rejects a reconstructed successful raise")
             else:
-                require(m < 0, "rr_stopped_though_next_level_feasible", lambda: "round %d: station %s stopped at %r although raising it to %r is feasible in state %r (margin %r)" % (k, ids[i], levels[i][fin[i]], levels[i][k], state, m))
+                require(m < 0, "rr_stopped_though_next_level_feasible", lambda: "period %r round %d: station %s stopped at %r although raising it to %r is feasible in state %r (margin %r)" % (now, k, ids[i], levels[i][fin[i]], levels[i][k], state, m))
                 blocked = True
     if blocked:
         labels.add("stopped_by_infeasibility")
-    rec.case(spec, labels, blocked)
+    return blocked
 
 
 def _col(state):
@@ -323,6 +350,82 @@ def prop_uncontrolled_sim(spec, rec):
     rec.case(spec, labels, seen["after_departure"] and seen["satisfied"])
 
 
+def prop_sorted_sim(spec, rec):
+    """The allocation oracles applied at EVERY call of a whole simulation (one algorithm object,
+    one network, partially served and nearly finished sessions, estimated departures already in
+    the past): greedy must grant the maximum feasible rate in priority order, round-robin must
+    stop only when blocked."""
+    h = sc.build_sim(spec)
+    stations = spec["stations"]
+    ids = [s["id"] for s in stations]
+    ph = [s["phase"] for s in stations]
+    A = [[float(c["coeffs"].get(i, 0.0)) for i in ids] for c in spec["constraints"]]
+    L = [c["limit"] for c in spec["constraints"]]
+    sch = spec["scheduler"]
+    ctx = {"sort": sch["sort"], "stations": stations, "period": spec["period"], "inc": sch.get("inc", 1)}
+    sess = {s["id"]: s for s in spec["sessions"]}
+    stats = {"judged": 0, "skipped": 0, "nt": False, "past_estimate": False}
+    labels = sc.scenario_labels(spec) | {"sort_" + sch["sort"]}
+
+    def post(algo, active, out):
+        t = algo.interface.current_time
+        r_out = [float(out[sid][0]) for sid in ids]
+        info = []
+        for sid, s in sess.items():
+            if not (s["arrival"] <= t < s["departure"]):
+                continue
+            i = ids.index(s["station"])
+            ev = h.evs[sid]
+            V = stations[i]["voltage"]
+            rem = ev.requested_energy - ev.energy_delivered
+            est = s["est_departure"] if s.get("est_departure") is not None else s["departure"]
+            mx = sc.top_level(stations[i])
+            mn = 0.0 if stations[i]["kind"] == "cont" else min([float(r) for r in stations[i]["rates"] if r > 0] or [0.0])
+            info.append({"i": i, "sid": sid, "rem": rem, "amp": rem * 1000.0 / V * 60.0 / spec["period"], "mx": mx, "mn": mn, "arr": s["arrival"], "est": est, "V": V})
+            if est < t and rem > 1e-3:
+                stats["past_estimate"] = True
+        try:
+            if sch["kind"] == "greedy":
+                nt = judge_greedy(ctx, ids, ph, A, L, info, r_out, rec, labels, now=t)
+            else:
+                nt = judge_rr(ctx, h.net, ids, ph, A, L, info, r_out, rec, labels, now=t)
+            stats["judged"] += 1
+            stats["nt"] = stats["nt"] or nt
+        except Skip:
+            stats["skipped"] += 1
+
+    h.scheduler.post = post
+    sc.run_sim(h)
+    if stats["past_estimate"]:
+        labels.add("estimated_departure_already_past")
+    rec.count("invocations_judged", stats["judged"])
+    rec.count("invocations_skipped", stats["skipped"])
+    rec.case(spec, labels, stats["nt"])
+
+
+@st.composite
+def sim_cases(draw):
+    spec = draw(
+        sc.scenarios(
+            kinds=("cont0", "finite"),
+            scheduler="sorted",
+            energies=(0.02, 0.3, 1.5, 6.0, 25.0),
+            limits=(8.0, 12.0, 20.0, 33.0, 50.0),
+            batteries=sc.battery_specs(noise=False),
+            window=4,
+        )
+    )
+    sch = spec["scheduler"]
+    sch.pop("estimator", None)
+    sch["uninterrupted"] = False
+    # estimates well before the real departure, so that laxity terms go negative
+    for s in spec["sessions"]:
+        if draw(st.integers(0, 2)) == 0:
+            s["est_departure"] = s["arrival"] + 1
+    # distinct arrivals / estimates where possible keep key ties rare; ties are skipped, not judged
+    return spec
+
+
 @st.composite
 def cases(draw, finite_max=True):
     n = draw(st.integers(2, 6))
@@ -332,14 +435,14 @@ def cases(draw, finite_max=True):
     k = draw(st.integers(1, n))
     chosen = list(draw(st.permutations(range(n))))[:k]
     arrivals = draw(st.lists(st.integers(-30, 0), min_size=k, max_size=k, unique=True))
-    ests = draw(st.lists(st.integers(1, 40), min_size=k, max_size=k, unique=True))
+    ests = draw(st.lists(st.integers(-12, 40), min_size=k, max_size=k, unique=True))
     sessions = []
     for j, i in enumerate(chosen):
         s = stations[i]
         energy = round(draw(st.sampled_from([0.02, 0.3, 1.0, 3.0, 12.0])) * (1 + 0.0171 * j), 6)
         full_amp = energy * 1000.0 / s["voltage"] * 60.0 / period
         frac = draw(st.sampled_from([0.0, 0.0, 0.3, 0.9, 0.995]))
-        sessions.append({"id": "sess-%d" % j, "station": s["id"], "arrival": arrivals[j], "departure": ests[j] + draw(st.integers(0, 5)), "est_departure": ests[j], "energy": energy, "served_amps": round(full_amp * frac, 6)})
+        sessions.append({"id": "sess-%d" % j, "station": s["id"], "arrival": min(arrivals[j], ests[j] - 1), "departure": max(ests[j], 0) + draw(st.integers(1, 5)), "est_departure": ests[j], "energy": energy, "served_amps": round(full_amp * frac, 6)})
     m = draw(st.integers(1, 4))
     cons = []
     for j in range(m):
@@ -353,10 +456,11 @@ def subchecks(tier):
     return [
         Given("greedy", cases(), prop_greedy, quick=1200, thorough=150000, floors={"constraint_binds": 0.2}, min_nontrivial=100),
         Given("round_robin", cases(), prop_rr, quick=800, thorough=100000, floors={"stopped_by_infeasibility": 0.15}),
+        Given("sorted_sim", sim_cases(), prop_sorted_sim, quick=250, thorough=20000, floors={"estimated_departure_already_past": 0.1}),
         Given("uncontrolled", cases(), prop_uncontrolled, quick=300, thorough=20000),
         Given("uncontrolled_sim", sc.scenarios(scheduler="uncontrolled", kinds=("cont0", "deadband", "finite"), noise=False), prop_uncontrolled_sim, quick=150, thorough=10000, floors={"call_after_a_departure": 0.3, "call_with_satisfied_session_connected": 0.1}),
     ]
 
 
 def replay(subcheck, spec, rec):
-    return {"greedy": prop_greedy, "round_robin": prop_rr, "uncontrolled": prop_uncontrolled, "uncontrolled_sim": prop_uncontrolled_sim}[subcheck](spec, rec)
+    return {"greedy": prop_greedy, "round_robin": prop_rr, "uncontrolled": prop_uncontrolled, "uncontrolled_sim": prop_uncontrolled_sim, "sorted_sim": prop_sorted_sim}[subcheck](spec, rec)
